@@ -13,7 +13,8 @@ gsvars == <<svars, h, kind>>
 R(S) == {RandomElement(S)}
 W(q) == {q[RandomElement(1..Len(q))]}
 
-In0 == [op |-> "", offers |-> <<>>, origin |-> "", magic |-> TRUE, lenn |-> 0, sern |-> 0, rsv |-> TRUE, len |-> 0]
+In0 == [op |-> "", offers |-> <<>>, origin |-> "", magic |-> TRUE, lenn |-> 0, sern |-> 0, rsv |-> TRUE, len |-> 0,
+        scheme |-> "", ser |-> ""]
 AllOffers == Offers \cup {<<"wamp.2.msgpack">>, <<"wamp.2.cbor">>, <<"wamp.2.msgpack", "wamp.2.json">>, <<"bogus", "wamp.2.msgpack", "bogus2">>,
                           <<"wamp.2.cbor", "bogus">>, <<"wamp.2.json", "wamp.2.json">>, <<"WAMP.2.JSON">>, <<"wamp.2.msgpack.batched">>}
 
@@ -28,12 +29,17 @@ GRsHs    == \E magicOK \in W(<<TRUE, TRUE, TRUE, TRUE, TRUE, FALSE>>), ln \in W(
               /\ RsHandshake(magicOK, ln, sn, rz) /\ UNCHANGED kind
 GRsBig   == /\ recvLimit < 100000      \* (16 MiB frames are left to the wire scenarios)
             /\ h' = Append(h, [In0 EXCEPT !.op = "rsbig", !.len = recvLimit + 1]) /\ RsTooBig /\ UNCHANGED kind
+\* (a rawsocket client at a websocket listener waits for the HTTP server's header timeout: rare)
+GClient  == \E sc \in W(IF kind = "ws" THEN <<"ws", "ws", "ws", "ws", "http", "http", "http", "bogus", "tcp">>
+                                       ELSE <<"tcp", "tcp", "tcp", "tcp4", "tcp4", "ws", "http", "bogus">>), sr \in R({"json", "msgpack", "cbor"}) :
+              /\ h' = Append(h, [In0 EXCEPT !.op = "cconnect", !.scheme = sc, !.ser = sr]) /\ ClientConnect(kind, sc, sr) /\ UNCHANGED kind
 GNop     == h' = Append(h, [In0 EXCEPT !.op = "nop"]) /\ UNCHANGED <<svars, kind>>
 
 GenNext ==
   /\ Len(h) < Depth
   /\ IF sphase = "closed" THEN GNop
-     ELSE IF sphase = "new" THEN (IF kind = "ws" THEN GUpgrade ELSE GRsHs)
+     ELSE IF sphase = "new" THEN \E who \in W(<<"raw", "raw", "client", "client">>) :
+                                   IF who = "client" THEN GClient ELSE IF kind = "ws" THEN GUpgrade ELSE GRsHs
      ELSE IF sphase = "up" THEN GHello
      ELSE \E k \in W(<<"pub", "pub", "big">>) : IF k = "big" /\ kind = "rs" /\ recvLimit < 100000 THEN GRsBig ELSE GPub
 
